@@ -67,12 +67,17 @@ def native_roundtrip(seed=0, n_hist=40):
     rng = random.Random(seed)
     lines = ["1;255;0;0;17;2.2", "1;1;0;0;6;", "1;1;1;0;0;20.5", "1;255;3;0;0;150", "1;255;3;0;0;-3", "1;255;3;0;0;100", "1;255;3;0;0;0", "1;255;3;0;11;é sketch",
              "1;255;3;0;12;", "2;255;0;0;-5;v", "2;254;0;0;99999999999;d;e", "2;254;1;0;-7;x", "1;255;3;0;22;123", "1;255;3;0;22;-5", "2;255;3;0;22;-1", "255;255;3;0;3;", "0;255;0;0;18;2.2.0", "1;255;3;0;32;",
-             "1;1;1;0;47;", "1;1;1;0;24;0", "1;2;0;0;0;", "1;2;1;0;16;", "1;255;3;0;11;", "1;255;0;0;17;", "1;1;1;0;47; pad"]
+             "1;1;1;0;47;", "1;1;1;0;24;0", "1;2;0;0;0;", "1;2;1;0;16;", "1;255;3;0;11;", "1;255;0;0;17;", "1;1;1;0;47; pad",
+             # nothing on the receive path limits the length of what is stored (TCP and MQTT carry more than a radio frame)
+             "1;255;3;0;11;A sketch name that is longer than one radio frame", "1;255;3;0;12;1.0.0-beta.12345678901234567890",
+             "1;1;0;0;6;a child description longer than twenty-five characters", "1;1;1;0;47;" + "text " * 60, "1;255;0;0;17;2.2.0-" + "x" * 40]
     d = tempfile.mkdtemp(prefix="c13_")
     n = 0
     try:
         edge = [["1;255;0;0;17;2.2", "1;1;0;0;36;info", "1;1;1;0;47;", "1;1;1;0;24;hello", "1;2;0;0;6;", "1;2;1;0;0;"], ["255;255;0;0;17;1.4", "255;255;3;0;3;", "255;255;3;0;3;"], ["254;255;0;0;17;2.2", "255;255;3;0;3;"], ["7;255;0;0;0;2.2.0", "7;1;0;0;0;d"],
-                ["0;255;0;0;18;2.2", "255;255;3;0;3;", "1;255;0;0;17;", "1;255;3;0;11;", "253;255;0;0;17;x", "255;255;3;0;3;", "255;255;3;0;3;"]]
+                ["0;255;0;0;18;2.2", "255;255;3;0;3;", "1;255;0;0;17;", "1;255;3;0;11;", "253;255;0;0;17;x", "255;255;3;0;3;", "255;255;3;0;3;"],
+                ["1;255;0;0;17;2.2", "1;255;3;0;11;A sketch name that is longer than one radio frame", "1;255;3;0;12;1.0.0-beta.12345678901234567890",
+                 "1;1;0;0;6;a child description longer than twenty-five characters", "1;1;1;0;47;" + "text " * 60]]
         for h in range(n_hist + len(edge)):
             gw, tr = native.make_gateway("2.2", ())
             for line in (edge[h - n_hist] if h >= n_hist else [rng.choice(lines) for _ in range(rng.randint(1, 10))]):
